@@ -13,24 +13,13 @@ variable {α : Type}
 def RSmall (c : Nat) (x : Small α) (l : List α) : Prop :=
   if x.tagS then RSVec c x.st l else RVec x.dy l
 
-/-- every operation of the alphabet except `x.push_back(x[i])` on an object that holds exactly `DIM` elements
-    (there the argument dangles after the internal resize: `Small.pushAt`) -/
-def smallOk (c : Nat) : Option (List α) → Op α → Prop
-  | some l, .pushAt _ i => i < l.length → l.length ≠ c
-  | _, _ => True
+/-- every operation of the alphabet is inside the refinement domain (after the repairs) -/
+def smallOk (_c : Nat) : Option (List α) → Op α → Prop := fun _ _ => True
 
 instance decSmallOk (c : Nat) (st : Option (List α)) (op : Op α) : Decidable (smallOk c st op) := by
-  cases st <;> cases op <;> simp only [smallOk] <;> infer_instance
+  simp only [smallOk]; infer_instance
 
 namespace Small
-
-theorem rawAssign_spec (zero : α) (o : Vec α) (L : Ledger) (ho : o.Inv) :
-    (Vec.assign zero rawVec o L).1.Inv ∧ (Vec.assign zero rawVec o L).1.view = o.view := by
-  have h1 : (Vec.resize zero (rawVec (α := α)) o.size L).1.Inv := by
-    simp only [Vec.resize, rawVec, Ledger.alloc]
-    exact ⟨by simp, by simp, by simp⟩
-  have h2 : (Vec.resize zero (rawVec (α := α)) o.size L).1.size = o.size := by simp [Vec.resize, rawVec]
-  exact ⟨Vec.copyFrom_inv _ o _ h1 ho h2, Vec.copyFrom_view _ o _ ho h2⟩
 
 /-- `small_vector(n)` for `n ≥ DIM`: a heap vector of `n` value-initialised elements -/
 theorem mkSized_dyn (c : Nat) (zero : α) (n : Nat) (L : Ledger) (hn : ¬ n < c) :
@@ -38,10 +27,10 @@ theorem mkSized_dyn (c : Nat) (zero : α) (n : Nat) (L : Ledger) (hn : ¬ n < c)
     (mkSized c zero n L).1.dy.view = List.replicate n (some zero) := by
   simp only [mkSized, hn, if_false]
   have hd := Vec.mkDefault_inv (α := α) L
-  have ha := rawAssign_spec zero (Vec.mkDefault (α := α) L).1 ((Vec.mkDefault (α := α) L).2.flag .uninitAssign) hd
+  have ha := Vec.mkCopy_spec zero (Vec.mkDefault (α := α) L).1 (Vec.mkDefault (α := α) L).2 hd
   have hv : (Vec.mkDefault (α := α) L).1.view = [] := by simp [Vec.mkDefault, Vec.view]
   rw [hv] at ha
-  generalize (Vec.assign zero rawVec (Vec.mkDefault (α := α) L).1 ((Vec.mkDefault (α := α) L).2.flag .uninitAssign)) = r at ha
+  generalize (Vec.mkCopy zero (Vec.mkDefault (α := α) L).1 (Vec.mkDefault (α := α) L).2) = r at ha
   generalize Vec.destroy (Vec.mkDefault (α := α) L).1 r.2 = L3
   have hsz : r.1.size = 0 := by
     have := Vec.view_length _ ha.1; rw [ha.2] at this; simpa using this.symm
@@ -71,8 +60,7 @@ theorem resize_grow_dyn (c : Nat) (zero : α) (x : Small α) (n : Nat) (L : Ledg
     simp [List.length_take]
     omega
   generalize hL2 : nb.2.flagIf (decide (x.st.cells.length < x.st.size ∨ nb.1.dy.cells.length < x.st.size)) Event.oob = L2
-  have hv0 := Vec.mkDefault_inv (α := α) L2
-  have ha := Vec.assign_spec zero (Vec.mkDefault (α := α) L2).1 _ (Vec.mkDefault (α := α) L2).2 hv0 hnbinv
+  have ha := Vec.mkCopy_spec zero _ L2 hnbinv
   refine ⟨trivial, ha.1, ?_⟩
   rw [ha.2]
   -- view of the patched temporary: prefix from the static part, the rest from the temporary's (zero) cells
@@ -188,6 +176,72 @@ theorem rsmall_dy {c : Nat} {x : Small α} {l : List α} (ht : x.tagS = false) :
 theorem rsvec_fresh (c : Nat) (zero : α) : RSVec c (Small.freshSt c zero) ([] : List α) :=
   ⟨by simp [Small.freshSt], by simp [Small.freshSt], by simp [Small.freshSt, SVec.view]⟩
 
+theorem small_push_rel (c : Nat) (zero : α) (s : Nat) (a : α) (x : Small α) (y : List α) (L M : Ledger) (h : RSmall c x y) :
+    RSmall c (Small.push c zero x a L).1 (y ++ [a]) := by
+  have hsz := h.size_eq
+  cases ht : x.tagS with
+  | true =>
+    have hx := (rsmall_st ht).mp h
+    have hxs : x.size = x.st.size := by simp [Small.size, ht]
+    by_cases hc : x.size = c
+    · simp only [Small.push, hc, if_true]
+      obtain ⟨htag, hinv, hview⟩ := Small.resize_grow_dyn c zero x (c + 1) L ht hx.len hx.le (by omega)
+      generalize Small.resize c zero x (c + 1) L = r at htag hinv hview
+      have hrs : r.1.dy.size = c + 1 := by
+        have := Vec.view_length _ hinv
+        rw [hview] at this
+        have h2 := congrArg List.length hx.view
+        simp at this h2; omega
+      have hw := Vec.write_spec r.1.dy c a r.2 hinv (by omega)
+      simp only [Small.write, htag, Bool.false_eq_true, if_false, RSmall]
+      refine ⟨hw.1, ?_⟩
+      rw [hw.2, hview, hx.view]
+      have : x.st.size = c := by omega
+      have hyl : y.length = c := by omega
+      simp only [this, Nat.add_sub_cancel_left, List.replicate_one]
+      rw [List.set_append_right _ _ (by simp [hyl])]
+      simp [hyl]
+    · have hlt : y.length + 1 ≤ c := by have := hx.le; omega
+      simp only [Small.push, hc, if_false, ht, if_true, RSmall]
+      have := (svec_sim c zero).push s a _ _ L M trivial hx
+      simpa [boundedSpec, hlt, svecImpl] using this
+  | false =>
+    have hx := (rsmall_dy ht).mp h
+    have hxs : x.size = x.dy.size := by simp [Small.size, ht]
+    by_cases hc : x.size = c
+    · simp only [Small.push, hc, if_true, Small.resize, ht, Bool.false_eq_true, if_false, Small.write, RSmall]
+      have hri := Vec.resize_inv zero x.dy (c + 1) L hx.1
+      have hrs := Vec.resize_size zero x.dy (c + 1) L hx.1
+      have hrv := Vec.resize_view zero x.dy (c + 1) L hx.1
+      have hcs : x.dy.size = c := by omega
+      have hnle : ¬ c + 1 ≤ c := by omega
+      simp only [hcs, hnle, if_false, Nat.add_sub_cancel_left, List.replicate_one] at hrv
+      have hw := Vec.write_spec (x.dy.resize zero (c + 1) L).1 c a (x.dy.resize zero (c + 1) L).2 hri (by omega)
+      refine ⟨hw.1, ?_⟩
+      rw [hw.2, hrv, hx.2]
+      have hyl : y.length = c := by omega
+      rw [List.set_append_right _ _ (by simp [hyl])]
+      simp [hyl]
+    · simp only [Small.push, hc, if_false, ht, Bool.false_eq_true, RSmall]
+      exact (vec_sim zero).push s a _ _ L M trivial hx
+
+theorem Small.write_eq_storeCell (x : Small α) (i : Nat) (a : α) (L : Ledger) :
+    Small.write x i a L = Small.storeCell x i (some a) L := by
+  cases ht : x.tagS <;> simp [Small.write, Small.storeCell, ht, SVec.write, Vec.write]
+
+/-- at size DIM `x.push_back(x[i])` is `x.push_back(v)` for the value `v` of element `i` -/
+theorem small_pushAt_eq_push (c : Nat) (zero : α) (x : Small α) (y : List α) (i : Nat) (L : Ledger) (h : RSmall c x y)
+    (hi : i < y.length) (hc : x.size = c) : Small.pushAt c zero x i L = Small.push c zero x (y[i]'hi) L := by
+  have hcell : (if x.tagS then x.st.cells else x.dy.cells)[i]? = some (some (y[i]'hi)) := by
+    cases ht : x.tagS with
+    | true =>
+      simp only [if_true]
+      rw [((rsmall_st ht).mp h).cell i hi, List.getElem?_eq_getElem hi]
+    | false =>
+      simp only [Bool.false_eq_true, if_false]
+      rw [((rsmall_dy ht).mp h).cell i hi, List.getElem?_eq_getElem hi]
+  simp only [Small.pushAt, Small.push, hc, if_true, hcell, Small.write_eq_storeCell]
+
 theorem small_sim (c : Nat) (zero : α) : Sim (smallImpl c zero) (stdSpec zero) (RSmall c) (smallOk c) where
   size_eq := fun x y h => h.size_eq
   mkDefault := fun s L M _ => by
@@ -215,11 +269,11 @@ theorem small_sim (c : Nat) (zero : α) : Sim (smallImpl c zero) (stdSpec zero) 
     cases ht : x.tagS with
     | true =>
       simp only [Small.mkCopy, ht, if_true, RSmall]
-      exact (svec_sim c zero).assign d s _ _ _ _ L M trivial (rsvec_fresh c zero) ((rsmall_st ht).mp h)
+      exact (rsmall_st ht).mp h
     | false =>
       have hx := (rsmall_dy ht).mp h
       simp only [Small.mkCopy, ht, Bool.false_eq_true, if_false, RSmall]
-      have := Small.rawAssign_spec zero x.dy (L.flag .uninitAssign) hx.1
+      have := Vec.mkCopy_spec zero x.dy L hx.1
       exact ⟨this.1, by rw [this.2]; exact hx.2⟩
   assign := fun d s x y x' y' L M _ h h' => by
     show RSmall c (Small.assign c zero x x' L).1 y'
@@ -227,87 +281,36 @@ theorem small_sim (c : Nat) (zero : α) : Sim (smallImpl c zero) (stdSpec zero) 
     · simp only [Small.assign, ht, ht', bne_self_eq_false, Bool.false_eq_true, if_false, RSmall]
       exact (vec_sim zero).assign d s _ _ _ _ L M trivial ((rsmall_dy ht).mp h) ((rsmall_dy ht').mp h')
     · simp only [Small.assign, ht, ht', Bool.bne_true, Bool.not_false, if_true, RSmall]
-      exact (svec_sim c zero).assign d s _ _ _ _ _ M trivial (rsvec_fresh c zero) ((rsmall_st ht').mp h')
+      exact (rsmall_st ht').mp h'
     · have hx' := (rsmall_dy ht').mp h'
       simp only [Small.assign, ht, ht', Bool.bne_false, if_true, Bool.false_eq_true, if_false, RSmall]
-      have := Vec.assign_spec zero (Vec.mkDefault (α := α) L).1 x'.dy (Vec.mkDefault (α := α) L).2 (Vec.mkDefault_inv L) hx'.1
+      have := Vec.mkCopy_spec zero x'.dy L hx'.1
       exact ⟨this.1, by rw [this.2]; exact hx'.2⟩
     · simp only [Small.assign, ht, ht', bne_self_eq_false, Bool.false_eq_true, if_false, if_true, RSmall]
       exact (svec_sim c zero).assign d s _ _ _ _ L M trivial ((rsmall_st ht).mp h) ((rsmall_st ht').mp h')
-  assignSelf := fun d x y L M _ h => by
-    show RSmall c (Small.assignSelf c zero x L).1 y
-    cases ht : x.tagS with
-    | true =>
-      simp only [Small.assignSelf, ht, if_true, RSmall]
-      exact (svec_sim c zero).assignSelf d _ _ L M trivial ((rsmall_st ht).mp h)
-    | false =>
-      simp only [Small.assignSelf, ht, Bool.false_eq_true, if_false, RSmall]
-      exact (vec_sim zero).assignSelf d _ _ L M trivial ((rsmall_dy ht).mp h)
-  push := fun s a x y L M _ h => by
-    show RSmall c (Small.push c zero x a L).1 (y ++ [a])
+  assignSelf := fun d x y L M _ h => h
+  push := fun s a x y L M _ h => small_push_rel c zero s a x y L M h
+  pushAt := fun s i x y L M _ h hi => by
+    have hi' : i < y.length := hi
     have hsz := h.size_eq
-    cases ht : x.tagS with
-    | true =>
-      have hx := (rsmall_st ht).mp h
-      have hxs : x.size = x.st.size := by simp [Small.size, ht]
-      by_cases hc : x.size = c
-      · simp only [Small.push, hc, if_true]
-        obtain ⟨htag, hinv, hview⟩ := Small.resize_grow_dyn c zero x (c + 1) L ht hx.len hx.le (by omega)
-        generalize Small.resize c zero x (c + 1) L = r at htag hinv hview
-        have hrs : r.1.dy.size = c + 1 := by
-          have := Vec.view_length _ hinv
-          rw [hview] at this
-          have h2 := congrArg List.length hx.view
-          simp at this h2; omega
-        have hw := Vec.write_spec r.1.dy c a r.2 hinv (by omega)
-        simp only [Small.write, htag, Bool.false_eq_true, if_false, RSmall]
-        refine ⟨hw.1, ?_⟩
-        rw [hw.2, hview, hx.view]
-        have : x.st.size = c := by omega
-        have hyl : y.length = c := by omega
-        simp only [this, Nat.add_sub_cancel_left, List.replicate_one]
-        rw [List.set_append_right _ _ (by simp [hyl])]
-        simp [hyl]
-      · have hlt : y.length + 1 ≤ c := by have := hx.le; omega
-        simp only [Small.push, hc, if_false, ht, if_true, RSmall]
-        have := (svec_sim c zero).push s a _ _ L M trivial hx
-        simpa [boundedSpec, hlt, svecImpl] using this
-    | false =>
-      have hx := (rsmall_dy ht).mp h
-      have hxs : x.size = x.dy.size := by simp [Small.size, ht]
-      by_cases hc : x.size = c
-      · simp only [Small.push, hc, if_true, Small.resize, ht, Bool.false_eq_true, if_false, Small.write, RSmall]
-        have hri := Vec.resize_inv zero x.dy (c + 1) L hx.1
-        have hrs := Vec.resize_size zero x.dy (c + 1) L hx.1
-        have hrv := Vec.resize_view zero x.dy (c + 1) L hx.1
-        have hcs : x.dy.size = c := by omega
-        have hnle : ¬ c + 1 ≤ c := by omega
-        simp only [hcs, hnle, if_false, Nat.add_sub_cancel_left, List.replicate_one] at hrv
-        have hw := Vec.write_spec (x.dy.resize zero (c + 1) L).1 c a (x.dy.resize zero (c + 1) L).2 hri (by omega)
-        refine ⟨hw.1, ?_⟩
-        rw [hw.2, hrv, hx.2]
-        have hyl : y.length = c := by omega
-        rw [List.set_append_right _ _ (by simp [hyl])]
-        simp [hyl]
-      · simp only [Small.push, hc, if_false, ht, Bool.false_eq_true, RSmall]
-        exact (vec_sim zero).push s a _ _ L M trivial hx
-  pushAt := fun s i x y L M hok h hi => by
-    have hne : y.length ≠ c := hok hi
-    have hsz := h.size_eq
-    have hc : ¬ x.size = c := by omega
     show RSmall c (Small.pushAt c zero x i L).1 ((stdSpec zero).pushAt y i M).1
-    cases ht : x.tagS with
-    | true =>
-      have hx := (rsmall_st ht).mp h
-      have hxs : x.size = x.st.size := by simp [Small.size, ht]
-      have hlt : y.length + 1 ≤ c := by have := hx.le; omega
-      simp only [Small.pushAt, hc, if_false, ht, if_true, RSmall]
-      have := (svec_sim c zero).pushAt s i _ _ L M trivial hx hi
-      have hi' : i < y.length := hi
-      simpa [boundedSpec, stdSpec, hlt, svecImpl, List.getElem?_eq_getElem hi'] using this
-    | false =>
-      simp only [Small.pushAt, hc, if_false, ht, Bool.false_eq_true, RSmall]
-      exact (vec_sim zero).pushAt s i _ _ L M trivial ((rsmall_dy ht).mp h) hi
+    have hspec : ((stdSpec zero).pushAt y i M).1 = y ++ [y[i]'hi'] := by simp [stdSpec, List.getElem?_eq_getElem hi']
+    rw [hspec]
+    by_cases hc : x.size = c
+    · rw [small_pushAt_eq_push c zero x y i L h hi' hc]
+      exact small_push_rel c zero s _ x y L M h
+    · cases ht : x.tagS with
+      | true =>
+        have hx := (rsmall_st ht).mp h
+        have hxs : x.size = x.st.size := by simp [Small.size, ht]
+        have hlt : y.length + 1 ≤ c := by have := hx.le; omega
+        simp only [Small.pushAt, hc, if_false, ht, if_true, RSmall]
+        have := (svec_sim c zero).pushAt s i _ _ L M trivial hx hi
+        simpa [boundedSpec, hlt, svecImpl, List.getElem?_eq_getElem hi'] using this
+      | false =>
+        simp only [Small.pushAt, hc, if_false, ht, Bool.false_eq_true, RSmall]
+        have := (vec_sim zero).pushAt s i _ _ L M trivial ((rsmall_dy ht).mp h) hi
+        simpa [stdSpec, vecImpl, List.getElem?_eq_getElem hi'] using this
   resize := fun s n x y L M _ h => by
     show RSmall c (Small.resize c zero x n L).1 (listResize zero y n)
     cases ht : x.tagS with
